@@ -551,7 +551,7 @@ def stmt_family(tier, rnd, march="x86_64"):
     int_bits, long_bits = BITS[march]
     out = []
     ints = TYPES
-    pick = (lambda xs, n: xs[:n]) if q else (lambda xs, n: xs)
+    pick = (lambda xs, n: xs[:2 * n]) if q else (lambda xs, n: xs)
     # control flow
     for ta, tb in pick([("int", "int"), ("uint", "int"), ("short", "ushort"), ("long", "uint"), ("schar", "uchar"), ("ullong", "int")], 3):
         out.append(t_ifelse(ta, tb))
@@ -668,19 +668,29 @@ def stmt_family(tier, rnd, march="x86_64"):
 
 # ---------------------------------------------------------------------------------------------------
 def family(tier, seed, march="x86_64", primary=True):
-    """list of (family, program, tags) for one target"""
+    """list of (family, program, tags) for one target.  thorough: primary=True -> the full matrices,
+    primary="wide" -> full binary / conversion / compound-assignment matrices with sampled ?: triples,
+    primary=False -> the covering subset"""
     rnd = random.Random(1000003 * seed + 101 + sum(map(ord, march)))
     out = []
     if tier == "quick":
-        out += bin_family(QUICK_PAIRS[:14], BINOPS)
+        out += bin_family(QUICK_PAIRS, BINOPS)
         out += un_family()
-        out += cast_family(QUICK_CAST[:14])
-        out += implicit_family(QUICK_CAST[14:])
+        out += cast_family(QUICK_CAST)
+        out += implicit_family(QUICK_CAST[::2])
         out += cond_family(QUICK_COND)
-        out += deep_family(rnd, 40)
+        out += deep_family(rnd, 60)
         out += stmt_family("quick", rnd, march)
     else:
-        if primary:
+        if primary == "wide":
+            out += bin_family(list(itertools.product(TYPES, TYPES)))
+            out += un_family()
+            out += cast_family(list(itertools.product(TYPES, TYPES)))
+            out += implicit_family(QUICK_CAST)
+            out += cond_family(QUICK_COND + rnd.sample(list(itertools.product(TYPES, TYPES, TYPES)), 200))
+            out += deep_family(rnd, 100)
+            out += stmt_family("thorough", rnd, march)
+        elif primary:
             out += bin_family(list(itertools.product(TYPES, TYPES)))
             out += un_family()
             out += cast_family(list(itertools.product(TYPES, TYPES)))
